@@ -950,7 +950,7 @@ def check_C15(history, expectations=None):
     scen = history["scenario"]
     ending = history["endings"][0]
     events = history["events"]
-    invalid = any(e.get("invalid") for e in (expectations or {}).values())
+    invalid = any(e.get("invalid") for e in (expectations or {}).values() if e)
     if invalid:
         if ending["how"] != "raised":
             out.append(V("C15", "unknown-state-accepted", "an update from or to a state that does not exist was not rejected",
@@ -963,42 +963,43 @@ def check_C15(history, expectations=None):
     from travsim.resolver import strip_set, flat_part
     execs = executions(events)
     workers = scen["nets"].split()
-    for vm, exp in (expectations or {}).items():
-        if exp is None:
+    for vm, exp_all in (expectations or {}).items():
+        if exp_all is None:
             continue
-        token = exp["token"]
-        # executions of this vm (single vm tests in an update)
-        mine = [ex for ex in execs if ex["start"]["vms"].split() == [vm]]
-        others = [ex for ex in execs if vm in ex["start"]["vms"].split() and ex["start"]["vms"].split() != [vm]]
-        got = sorted({strip_set(flat_part(ex["start"]["name"])) for ex in mine if not is_creation_prestep(ex["start"])})
-        want = sorted(set(exp["path"]))
-        if got != want:
-            missing, extra = sorted(set(want) - set(got)), sorted(set(got) - set(want))
-            out.append(V("C15", "wrong-path",
-                         f"updating {vm} " + ("did not execute a test on the requested path" if missing else "executed a test outside the requested path"),
-                         vm=vm, missing=missing, extra=extra))
-        counts = {}
-        for ex in mine:
-            if not is_creation_prestep(ex["start"]):
-                key = strip_set(flat_part(ex["start"]["name"]))
-                counts[key] = counts.get(key, 0) + 1
-        for key, n in counts.items():
-            if n > 1:
-                out.append(V("C15", "repeated", f"updating {vm} executed a test of the path more than once", vm=vm, test=key, n=n))
-        # removal requests per worker
-        want_removed = {(typ, state) for typ, state in exp["removed"]}
-        for w in workers:
-            got_removed = set()
-            for ev in events:
-                if ev["kind"] == "door.unset" and ev["worker"] == w:
-                    for r in ev["reqs"]:
-                        if r["obj"].split("-")[0].split("/")[0] == vm:
-                            got_removed.add((r["type"], r["state"]))
-            if got_removed != want_removed:
-                missing, extra = sorted(want_removed - got_removed), sorted(got_removed - want_removed)
-                out.append(V("C15", "wrong-removal",
-                             f"updating {vm} " + ("did not remove a derived state" if missing else "removed a state that is not derived from the target")
-                             + " on some worker", vm=vm, worker=w, missing=missing, extra=extra))
+        for exp in exp_all["variants"]:
+            token = exp["token"]
+            marker = f".{vm}.{token}."
+            # executions of this vm variant (single vm tests in an update)
+            mine = [ex for ex in execs if ex["start"]["vms"].split() == [vm] and marker in ex["start"]["name"]]
+            got = sorted({strip_set(flat_part(ex["start"]["name"])) for ex in mine if not is_creation_prestep(ex["start"])})
+            want = sorted(set(exp["path"]))
+            if got != want:
+                missing, extra = sorted(set(want) - set(got)), sorted(set(got) - set(want))
+                out.append(V("C15", "wrong-path",
+                             f"updating {vm} " + ("did not execute a test on the requested path" if missing else "executed a test outside the requested path"),
+                             vm=vm, variant=token, missing=missing, extra=extra))
+            counts = {}
+            for ex in mine:
+                if not is_creation_prestep(ex["start"]):
+                    key = strip_set(flat_part(ex["start"]["name"]))
+                    counts[key] = counts.get(key, 0) + 1
+            for key, n in counts.items():
+                if n > 1:
+                    out.append(V("C15", "repeated", f"updating {vm} executed a test of the path more than once", vm=vm, test=key, n=n))
+            # removal requests per worker
+            want_removed = {(typ, state) for typ, state in exp["removed"]}
+            for w in workers:
+                got_removed = set()
+                for ev in events:
+                    if ev["kind"] == "door.unset" and ev["worker"] == w:
+                        for r in ev["reqs"]:
+                            if r["obj"].split("/")[0].startswith(vm + "-") and f".{token}." in r["obj"] + ".":
+                                got_removed.add((r["type"], r["state"]))
+                if got_removed != want_removed:
+                    missing, extra = sorted(want_removed - got_removed), sorted(got_removed - want_removed)
+                    out.append(V("C15", "wrong-removal",
+                                 f"updating {vm} " + ("did not remove a derived state" if missing else "removed a state that is not derived from the target")
+                                 + " on some worker", vm=vm, variant=token, worker=w, missing=missing, extra=extra))
     # nothing of other vms
     selected = set(scen["vm_strs"])
     for ex in execs:
